@@ -145,6 +145,9 @@ class SymEnv(BaseEnv):
     def sqrt(self, x):
         return (x if isinstance(x, SR) else SR(x)).sqrt()
 
+    def cbrt(self, x):
+        return (x if isinstance(x, SR) else SR(x)).cbrt()
+
     def is_true(self, cond):
         """fork on an oracle condition (use sparingly)"""
         return bool(cond)
@@ -394,6 +397,9 @@ class RealEnv(BaseEnv):
 
     def sqrt(self, x):
         return math.sqrt(x) if x >= 0 else math.nan
+
+    def cbrt(self, x):
+        return float(x) ** (1 / 3) if x >= 0 else math.nan
 
     def is_true(self, cond):
         return bool(cond)
